@@ -252,7 +252,10 @@ impl Router {
                 }
             }
             Event::Shadow(request) => {
-                retrieve_shadow(&mut self.datalog, &mut self.obufs[id], request)
+                // the connection may already be gone when the request arrives
+                if let Some(outgoing) = self.obufs.get_mut(id) {
+                    retrieve_shadow(&mut self.datalog, outgoing, request)
+                }
             }
             Event::SendAlerts => {
                 self.send_alerts();
